@@ -8,31 +8,31 @@ import re
 HERE = os.path.dirname(os.path.dirname(os.path.abspath(__file__)))
 ROWS = {
  "C01": ("zh writer/reader scripts (ASan; CPU overruns confirmed on the plain build); zck+unzck (ASan)",
-         "library cases (content x options x segmentation x read sizes) incl. minimum-without-maximum configurations with > 10 MiB chunks and images written behind a preamble (positioned descriptor / O_APPEND); CLI cases incl. split strings straddling every offset of a 32 KiB read block"),
+         "library cases (content x options x segmentation x read sizes) incl. minimum-without-maximum configurations with > 10 MiB chunks and images written behind a preamble (positioned descriptor / O_APPEND); CLI cases incl. split strings straddling every offset of a 32 KiB read block, procfs inputs (size 0 with content), unzck over an existing longer / shorter output file"),
  "C02": ("zh reader (plain, pinned, and after validation calls), unzck (ASan)",
-         "mutated files: raw + re-sealed structural (incl. chunk body altered with only the data checksum recomputed; chunks swapped with the data checksum left stale) + NUL-prefixed-checksum substitutions + the same alterations under the detached-header identifier; base files incl. another writer's layouts (unused header bytes, optional elements)"),
+         "mutated files: raw + re-sealed structural (incl. chunk body altered with only the data checksum recomputed; chunks swapped with the data checksum left stale) + NUL-prefixed-checksum substitutions + the same alterations under the detached-header identifier; unaltered files too; base files incl. another writer's layouts (unused header bytes, optional elements, first entry storing the frame of nothing) and zstd frame styles (no content size, several frames per chunk, frame as long as its content); unzck over an existing output file"),
  "C03": ("zh API programs (7 fixed + 2 random per input, init_read / init_adv_read), 13 tool invocations, memcheck sample on the plain build, fz_file (libFuzzer, clang ASan+UBSan; a quarter of the jobs with DEBUG logging)",
          "hostile inputs (boundary grid, cut headers, length edges, hostile dictionaries, 20 000-chunk index, C13 headers, mutants of valid files) x programs + tool runs + 16 x 100 000 fuzz executions"),
  "C04": ("zh `update` op; real zckdl (ASan) against lib/httpd_range.py on 127.0.0.1",
-         "in-process scenarios (incl. stored sizes at multiples of 32 KiB, deliveries > 1 MiB, 3 500 separate ranges in one request) + real zckdl runs"),
+         "in-process scenarios (incl. stored sizes at multiples of 32 KiB, deliveries > 1 MiB, 3 500 separate ranges in one request, HTTP/2 status line, earlier redirect / proxy header blocks, blanks in boundaries, a third with chained application callbacks) + real zckdl runs"),
  "C05": ("zh `sweep` op (in-process, distinct-outcome accounting) + write watch; a third of the runs with the application's own callbacks chained behind the library's",
-         "callback runs: all 1-/2-cut fragmentations of small responses, all 2^n subsets of one file, random k-cuts of larger ones, interrupted-then-retried transfers; files with byte-identical chunks; 33-40 KB header fields (coarse fragmentations)"),
- "C06": ("h_hdrmut (in-process, memfd) on the OpenSSL and the bundled-SHA build; five ways of opening (the fifth: every failing step followed by zck_clear_error and repeated); images also behind a pristine copy / through a pipe",
-         "opens: every header byte x 255 values of the sample files through zck_init_read, lead (first samples: whole header) through the other ways; patched images through all; bundled build with hashed header lengths swept across the SHA block sizes"),
- "C07": ("h_hdrmut", "pin cases: every digest-string position x 256 byte values for all 4 types, lengths, cancelling-difference digests, refused re-pins, pins changed between zck_validate_lead and the open, type/length grids, orders, cross-file, pipe / FIFO / socket / offset presentations"),
- "C08": ("zh copy/match scripts + write watch + poke + setfd", "scenarios incl. validated-then-damaged sources, match-then-copy, re-opened descriptor between two-part copies, crafted index pairs, target on descriptor 2"),
- "C09": ("zh validation scripts, io log; zck_read_header -f / -c -f, unzck -c", "on-disk states x validation words; sparse files; empty mid-index chunks; repeated chunks (one occurrence damaged); another writer's layouts (unused header bytes, optional elements); stale index checksums; validation through a pipe"),
- "C10": ("zh range scripts (batched)", "requests: all 2^n markings of small indexes (incl. empty chunks) x 8 limits, multi-step sequences (late length hint, copy with damaged source), all 16 buffer-crossing alignments, 24 huge-offset layouts (10-digit offsets, 40-100 KB of text)"),
+         "callback runs: all 1-/2-cut fragmentations of small responses, all 2^n subsets of one file, random k-cuts of larger ones, interrupted-then-retried transfers; files with byte-identical and one-byte chunks; 33-40 KB header fields (coarse fragmentations); HTTP/2 status line, earlier header blocks, blanks in boundaries"),
+ "C06": ("h_hdrmut (in-process, memfd) on the OpenSSL and the bundled-SHA build; six ways of opening (fifth: every failing step followed by zck_clear_error and repeated; sixth: writer-side options set on the reading context first); images also behind a pristine copy / through a pipe",
+         "opens: every header byte x 255 values of the sample files through zck_init_read, lead (first samples: whole header) through the other ways; patched images through all; padded headers with a checksum "until the signatures"; bundled build with hashed header lengths swept across the SHA block sizes"),
+ "C07": ("h_hdrmut", "pin cases: every digest-string position x 256 byte values for all 4 types, lengths, cancelling-difference digests, refused re-pins, pins changed / the file rewritten in place between zck_validate_lead and the open, type pins beyond int, leads whose size wraps 2^64, type/length grids, orders, cross-file, pipe / FIFO / socket / offset presentations"),
+ "C08": ("zh copy/match scripts + write watch + poke + setfd", "scenarios incl. validated-then-damaged sources, match-then-copy, re-opened descriptor between two-part copies, crafted index pairs, target on descriptor 2, zero-block chunks over stale bytes, first entry storing the frame of nothing, old file cut inside a chunk"),
+ "C09": ("zh validation scripts, io log; zck_read_header -f / -c -f, unzck -c", "on-disk states x validation words; sparse files; empty mid-index chunks; repeated chunks (one occurrence damaged); another writer's layouts (unused header bytes, optional elements, first entry storing the frame of nothing); stale index checksums; validation through a pipe"),
+ "C10": ("zh range scripts (batched)", "requests: all 2^n markings of small indexes (incl. empty chunks) x 8 limits, multi-step sequences (late length hint, copy with damaged source), all 16 buffer-crossing alignments, 24 huge-offset layouts (10-digit offsets, 40-100 KB of text), valid gaps of exactly k x 4 GiB, padded headers"),
  "C11": ("zh `update` + kill faults in wrap_io; real zckdl under preload_io.so", "kill points (every target write x 4 transfer sizes) + double kills + restarts with a different source; zero-content chunks; new versions that list the same chunk several times (old version supplies the tail); real-tool kills"),
- "C12": ("zh + wrap_io faults (incl. sendfile family); tools under preload_io.so and `strace -P <path> -e inject=`", "fault points over the scenarios (single faults of every kind, double short transfers, short-then-error, write-retry and copy-retry callers, runs of identical chunks)"),
- "C13": ("zh `meta` dump + zck_get_chunk lookups in non-ascending orders, zck_read_header", "reference-writer headers incl. optional-element overruns / rewinds, unused header bytes, images behind another image"),
- "C14": ("zh chunkdata/chunkcomp sequences (optionally with the harness moving the shared offset); unzck --dict (file and detached header), zck_gen_zdict", "request sequences (buffers exactly / larger / smaller than the chunk, as requests and as history) + tool runs on every base file; two files with chunks beyond 10 MiB"),
- "C15": ("zh reader (plain, clear-error-and-continue, validate-then-tamper, chunk requested by number; CPU overruns confirmed on the plain build)", "corrupted reads incl. chunks of 0.3-4.6 MB (stored > 4 MiB) and runs of identical chunks"),
+ "C12": ("zh + wrap_io faults (incl. sendfile family); tools under preload_io.so and `strace -P <path> -e inject=`", "fault points over the scenarios (single faults of every kind, double short transfers, short-then-error, write-retry, copy-retry and read-retry callers, step-by-step opens, chained updates, runs of identical chunks, content with whole zero blocks)"),
+ "C13": ("zh `meta` dump + zck_get_chunk lookups in non-ascending orders, zck_read_header", "reference-writer headers incl. type values equal to a known type modulo 2^8 / 2^16, overflowing ten-byte lead fields, writer-side options set on the reading context, optional-element overruns / rewinds, unused header bytes, images behind another image"),
+ "C14": ("zh chunkdata/chunkcomp sequences (optionally with the harness moving the shared offset); unzck --dict (file and detached header), zck_gen_zdict", "request sequences (buffers exactly / larger / smaller than the chunk, as requests and as history) + tool runs on every base file (incl. foreign zstd frame styles); two files with chunks beyond 10 MiB"),
+ "C15": ("zh reader (plain, clear-error-and-continue, validate-then-tamper, chunk requested by number; CPU overruns confirmed on the plain build)", "corrupted reads incl. chunks of 0.3-4.6 MB (stored > 4 MiB) runs of identical chunks, chunks of several frames / without content size"),
  "C16": ("zh writer with generated segmentations; contents with crafted rolling-hash hits (lib/buz.py); writer under taskset; the zck tool (file, FIFO with controlled read() sizes, shifted contents)",
          "generic + hit-dense contents x 5-9 segmentations + edits; minimum == maximum configurations; a second archive written in the same thread between the calls; CPU-affinity pairs; tool contents x ~8 runs"),
- "C17": ("zh hdrline/body scripts + write watch; fz_dl (libFuzzer with in-target confinement monitor)", "structured hostile responses x sequences (clear / reset / again / retry), a third at DEBUG log level, some with the target on descriptor 2, chained application callbacks, a second transfer freed between two header lines, > 1 MiB part headers; 16 x 15 000 fuzz executions"),
- "C18": ("h_hash on OpenSSL-ASan and bundled-ASan builds; zh of both builds", "digests x 2 builds (all lengths 0..520 x segmentations, random long, 2^29+k bytes, one update > 256 MiB) + cross-build files; a third also with a dirty OpenSSL error queue / non-zero errno left by the application"),
- "C19": ("h_mt on tsan and bundled-tsan builds; two scenario blocks + failing writer; half the runs with a process-wide log callback", "parallel runs (2-16 threads) each paired with a serial run"),
+ "C17": ("zh hdrline/body scripts + write watch; fz_dl (libFuzzer with in-target confinement monitor)", "structured hostile responses x sequences (clear / reset / again / retry), a third at DEBUG log level, some with the target on descriptor 2, chained application callbacks, a second transfer freed between two header lines, printf conversions in server text, deliveries while no range is set, > 1 MiB part headers; 16 x 15 000 fuzz executions"),
+ "C18": ("h_hash on OpenSSL-ASan and bundled-ASan builds; zh of both builds", "digests x 2 builds (all lengths 0..520 x segmentations, random long, 2^29+k bytes, one update > 256 MiB) + cross-build files; a third also with a dirty OpenSSL error queue / non-zero errno left by the application; checksum options set again mid-chunk"),
+ "C19": ("h_mt on tsan and bundled-tsan builds; two scenario blocks + failing writer; half the runs with a process-wide log callback; contexts opened by the main thread and read by workers", "parallel runs (2-16 threads) each paired with a serial run"),
  "C20": ("h_compint (guard page + ASan)", "decodes: all strings of length <= 3 at every cursor/limit, long strings, round trips, the same at DDEBUG level, cursors / room beyond 4 GiB, cursor past the limit (thorough: all 2^32 strings of length 4)"),
 }
 rows = ["| id | harness / monitors as built | quick tier covers | evaluations | quick wall |", "|---|---|---|---|---|"]
